@@ -439,6 +439,11 @@ func c13GuardFields(n *c13Node, sf *c13SpecFields, stack []ast.Node) ([]*types.V
 			switch e := x.(type) {
 			case *ast.SelectorExpr:
 				if s := info.Selections[e]; s != nil {
+					if _, isMethod := s.Obj().(*types.Func); isMethod {
+						// the method of an accepted predicate call: the spec fields it reads through its
+						// receiver were collected by c13IsPurePredicate, the receiver path itself is irrelevant
+						return false
+					}
 					v, ok := s.Obj().(*types.Var)
 					if !ok || !v.IsField() {
 						pure = false
@@ -461,7 +466,7 @@ func c13GuardFields(n *c13Node, sf *c13SpecFields, stack []ast.Node) ([]*types.V
 				return false
 			case *ast.Ident:
 				switch o := info.Uses[e].(type) {
-				case *types.Const, *types.Nil, *types.TypeName:
+				case *types.Const, *types.Nil, *types.TypeName, *types.Func:
 				case *types.Builtin:
 					if o.Name() != "len" {
 						pure = false
@@ -489,6 +494,11 @@ func c13GuardFields(n *c13Node, sf *c13SpecFields, stack []ast.Node) ([]*types.V
 				}
 				if tv, ok := info.Types[e.Fun]; ok && tv.IsType() {
 					return true
+				}
+				// a same-package predicate over its parameters (`!isSupportedCodec(spec.Compress)`,
+				// `spec.wantsBoth()`): its arguments / receiver are inspected like the condition itself
+				if c13IsPurePredicate(n, sf, e, set, 0) {
+					return true // the arguments (and a receiver path) are visited below
 				}
 				pure = false
 				return false
@@ -736,4 +746,95 @@ func c13CheckFasttimeLayouts(c *core.Ctx, g *c13Graph) (bool, string) {
 		return false, bad
 	}
 	return true, sprintf("%d call sites pass a Layout constant handled by the switch", n)
+}
+
+// c13IsPurePredicate: the call goes to a function of the same package whose body computes its
+// result from its parameters, constants, len() and other such predicates only; spec fields it
+// reads through its receiver are added to set. (The caller visits the arguments.)
+func c13IsPurePredicate(n *c13Node, sf *c13SpecFields, call *ast.CallExpr, set map[*types.Var]bool, depth int) bool {
+	info := n.pkg.TypesInfo
+	id := c13CalleeIdent(call)
+	if id == nil || depth > 2 {
+		return false
+	}
+	fo, ok := info.Uses[id].(*types.Func)
+	if !ok || fo.Pkg() != n.pkg.Types {
+		return false
+	}
+	fd := declOf(n.pkg, fo)
+	if fd == nil || fd.Type.Results == nil {
+		return false
+	}
+	params := map[types.Object]bool{}
+	for _, fl := range fd.Type.Params.List {
+		for _, nm := range fl.Names {
+			params[info.Defs[nm]] = true
+		}
+	}
+	var recv types.Object
+	if fd.Recv != nil && len(fd.Recv.List) == 1 && len(fd.Recv.List[0].Names) == 1 {
+		recv = info.Defs[fd.Recv.List[0].Names[0]]
+	}
+	callee := &c13Node{pkg: n.pkg, decl: fd, body: fd.Body}
+	pure := true
+	ast.Inspect(fd.Body, func(x ast.Node) bool {
+		if !pure {
+			return false
+		}
+		switch e := x.(type) {
+		case *ast.AssignStmt, *ast.IncDecStmt, *ast.GoStmt, *ast.DeferStmt, *ast.SendStmt, *ast.FuncLit, *ast.RangeStmt, *ast.ForStmt:
+			pure = false
+			return false
+		case *ast.SelectorExpr:
+			if s := info.Selections[e]; s != nil {
+				v, ok := s.Obj().(*types.Var)
+				if ok && v.IsField() && sf.isSpec(v.Origin()) {
+					// a spec field reached from the receiver or a parameter
+					if b := c13RootIdent(e); b != nil && (info.Uses[b] == recv || params[info.Uses[b]]) {
+						set[v.Origin()] = true
+						return false
+					}
+				}
+				pure = false
+				return false
+			}
+			if tv, ok := info.Types[e]; ok && tv.Value != nil {
+				return false
+			}
+			pure = false
+			return false
+		case *ast.Ident:
+			switch o := info.Uses[e].(type) {
+			case nil:
+			case *types.Const, *types.Nil, *types.TypeName:
+			case *types.Builtin:
+				if o.Name() != "len" {
+					pure = false
+				}
+			case *types.Var:
+				if !params[o] && o != recv {
+					pure = false
+				}
+			case *types.Func:
+				// judged at the call expression
+			default:
+				pure = false
+			}
+		case *ast.CallExpr:
+			if cid, ok := ast.Unparen(e.Fun).(*ast.Ident); ok {
+				if b, ok := info.Uses[cid].(*types.Builtin); ok && b.Name() == "len" {
+					return true
+				}
+			}
+			if tv, ok := info.Types[e.Fun]; ok && tv.IsType() {
+				return true
+			}
+			if !c13IsPurePredicate(callee, sf, e, set, depth+1) {
+				pure = false
+				return false
+			}
+		}
+		return true
+	})
+	return pure
 }
